@@ -73,6 +73,11 @@ def check(P: Project, R: Report) -> None:
              sample=f"R1 {W.wait.qual}: receive→return carries id=={other}, {no_method(st, m)}, {not_list(st, m)}")
         if other is not None:
             id_params.add(other)
+        d = an.defs.get(m, ("", None))[1]
+        dv = d.value if isinstance(d, ast.Await) else d
+        from_stream = isinstance(d, ast.Await) and isinstance(dv, ast.Call) and isinstance(dv.func, ast.Attribute) and dv.func.attr == "receive" and ast.unparse(dv.func.value) == W.wait_read_param
+        R.ob("R1", "the returned message was read from the caller's stream during this call", from_stream, where,
+             f"the matched object is `{an.origin(m)[:90]}`, not `await {W.wait_read_param}.receive()`: a response kept from an earlier call (a cache, an inbox, a parked message) can complete a later request that reuses the id, or complete it instead of timing out")
         R.ob("R1", "return guarded by `not a list`", bool(not_list(st, m)), where, "a batch list could be returned as the response")
         R.ob("R1", "return guarded by `no method`", bool(no_method(st, m)), where, "a message carrying a method (server request / notification reusing the id) could be returned as the response")
         ret = subst_text(node.value, st) if node.value is not None else "None"
